@@ -54,8 +54,10 @@ EInit ==
 \* relays whose object's latch is closed are closed by their watcher (proc.go:126-137)
 Watch(conns) == {c \in conns : ~removed'[c.o]}
 
-\* property level: the relays that must be closed after this step (their address left the set)
-MustClose == {c \in econns : c.o \in owed' /\ c.o \notin owed}
+\* property level (a host is its address): the relays that must be closed after this step
+\* because the address they are connected to left the set in this step
+Leaving == {a \in Addrs : all[a] # NoObj /\ all'[a] = NoObj}
+MustClose == {c \in econns : oaddr[c.o] \in Leaving}
 
 HostOpTail ==
   /\ snap' = IF snap = {} THEN {all'[a] : a \in {x \in Addrs : all'[x] # NoObj}} ELSE snap
